@@ -71,6 +71,7 @@ type bworld struct {
 	minted  []string            // denominations observed entering the supply through the credit of a lock claim
 	msgClaims map[string][]string // prophecy id -> "validator=content" of every accepted claim MESSAGE, content from the message's own fields
 	storeFirst string            // digest of the oracle + ethbridge store bytes at the end of the first execution of the current history
+	wlOps     []string          // whitelist operations that took effect: "set:0.1.1.2", "add:v", "remove:v" (a ledger of results observed)
 	finalSeen map[string]string // prophecy id -> its dump when it was first observed finalised (SUCCESS / FAILED)
 	finalIds  []string
 	locks   []string            // successful locks "denom|amt"
@@ -118,6 +119,7 @@ func (w *bworld) reset() {
 	w.credAll = nil
 	w.minted = nil
 	w.finalSeen = map[string]string{}
+	w.wlOps = nil
 	w.msgClaims = map[string][]string{}
 	w.finalIds = nil
 	w.locks = nil
@@ -711,6 +713,7 @@ func (x *bexec) exec(line string) {
 			}
 		}
 		w.app.OracleKeeper.SetOracleWhiteList(w.ctx, l)
+		w.wlOps = append(w.wlOps, "set:"+strings.ReplaceAll(t[1], ",", "."))
 		x.emit(line, "ok", "wlset", false)
 	case "tx":
 		x.execTx(line, t[1], t[2:])
@@ -731,6 +734,20 @@ func (x *bexec) exec(line string) {
 		cls := ans
 		if strings.HasPrefix(ans, "ok") {
 			cls = "ok"
+		}
+		if cls == "ok" {
+			// every whitelist edit of a transaction that was written as a whole took effect
+			seg = nil
+			for _, tok := range append(t[1:], "|") {
+				if tok == "|" {
+					if len(seg) == 4 && seg[0] == "wl" {
+						w.noteWlOp(seg[2], seg[3])
+					}
+					seg = nil
+				} else {
+					seg = append(seg, tok)
+				}
+			}
 		}
 		x.emit(line, ans, "txm."+cls, true)
 	case "blk":
@@ -800,11 +817,22 @@ func (x *bexec) chkFinalHistory(t []string) {
 	}
 }
 
+func (w *bworld) noteWlOp(op, valTok string) {
+	if op == "add" || op == "remove" {
+		v, _ := splitSp(valTok)
+		w.wlOps = append(w.wlOps, fmt.Sprintf("%s:%d", op, v))
+	}
+}
+
+func (w *bworld) dumpWlOps() string { return listOrDash(w.wlOps) }
+
 // the whitelist the keeper serves against the whitelist the multistore holds (read raw, decoded with the codec)
 func (x *bexec) chkWlView() {
 	w := x.w
 	view, stored := w.dumpWl(), w.dumpWlStored()
 	x.emit(fmt.Sprintf("chk wlview tag=oracle.whitelist.keeper-view-equals-store view=%s stored=%s", view, stored), "true", "chk.wlview", view != "-")
+	// …and against the ledger of the administrative operations that took effect (genesis list, adds, removes)
+	x.emit(fmt.Sprintf("chk wlmember tag=oracle.whitelist.members-follow-admin-operations stored=%s ops=%s", stored, w.dumpWlOps()), "true", "chk.wlmember", len(w.wlOps) > 1)
 }
 
 // storeDigest: sha256 over every key and value (length-prefixed) of the oracle and the ethbridge store, in key order
@@ -987,6 +1015,9 @@ func (x *bexec) execTx(line, kind string, t []string) {
 	case "wl":
 		msg := ethtypes.MsgUpdateWhiteListValidator{CosmosSender: w.acctStr(t[0]), Validator: w.valStr(t[2]), OperationType: t[1]}
 		cls, _ := w.deliver(&msg)
+		if cls == "ok" {
+			w.noteWlOp(t[1], t[2])
+		}
 		x.emit(line, cls, "wl."+t[1]+"."+cls, cls == "ok")
 	case "lock", "burn":
 		// lock|burn s chain recv amount symbol ceth
@@ -1077,7 +1108,7 @@ func (x *bexec) chkClaim(t []string, id string, pb oracletypes.Prophecy, foundB 
 				shape = "claimant-in-stored-whitelist"
 			}
 		}
-		x.emit(fmt.Sprintf("chk accept tag=oracle.ProcessClaim.accepted.%s v=%d wl=%s vals=%s", shape, v, stored, w.dumpVals()), "true", "chk.accept", true)
+		x.emit(fmt.Sprintf("chk accept tag=oracle.ProcessClaim.accepted.%s v=%d wl=%s wlops=%s vals=%s", shape, v, stored, w.dumpWlOps(), w.dumpVals()), "true", "chk.accept", true)
 	}
 	// C05 threshold: the step turned the prophecy SUCCESS
 	if foundA && wasPending && pa.Status.Text == oracletypes.StatusText_STATUS_TEXT_SUCCESS {
@@ -1105,7 +1136,7 @@ func (x *bexec) chkClaim(t []string, id string, pb oracletypes.Prophecy, foundB 
 				shape = "claimant-jailed-not-in-power-index"
 			}
 		}
-		x.emit(fmt.Sprintf("chk thr tag=oracle.FindHighestClaim.threshold.%s vals=%s wl=%s p=%s", shape, w.dumpVals(), w.dumpWlStored(), w.dumpProphecy(pa)),
+		x.emit(fmt.Sprintf("chk thr tag=oracle.FindHighestClaim.threshold.%s vals=%s wl=%s wlops=%s p=%s", shape, w.dumpVals(), w.dumpWlStored(), w.dumpWlOps(), w.dumpProphecy(pa)),
 			"true", "chk.thr", true)
 	}
 	// C05 finality: a prophecy that was not pending before the claim is unchanged, and so is the bank
